@@ -4,7 +4,7 @@ import re
 from engine import absint
 from engine.rules import (MustPass, guard_edges, eq_matcher, pred_matcher, outcome, aggregates_of, is_derived,
                           root_fn, switch_bool_edges, bool_atom)
-from engine.sym import Sym, strip, strip_deep, render, walk, short
+from engine.sym import Sym, strip, strip_deep, render, walk, short, substituting
 from props import common as K
 
 META = {
@@ -149,7 +149,8 @@ def run(ctx):
         def p(c):
             if not re.search(res_rx, c.res or ""):
                 return False
-            return re.search(arg_rx, K.arg_renders(c)[0]) is not None
+            # named constants and lengths of literals are their values (`bytes[PREFIX.len()..]` is `bytes[8..]`)
+            return re.search(arg_rx, render(K.fold_consts(K.arg_terms(c)[0], f.consts))) is not None
         return p
     reqs = [
         ("uri::Rsync::from_bytes", "check_uri_ascii(bytes)", call_sink(r"^uri::check_uri_ascii$", r"^bytes$")),
@@ -216,17 +217,29 @@ def run(ctx):
                                                         "to_ascii_uppercase", "make_ascii_uppercase", "to_lowercase"):
                     continue
                 n += 1
-                a = K.arg_renders(c)
+                # a closure handed to for_each / map / … is read in the vocabulary of the function that applies it: its
+                # element parameter is an element of the receiver
+                with substituting(_closure_context(f, b)):
+                    a = K.arg_renders(c)
                 ok = False
                 why = None
                 ops = a[:2] if c.name == "eq_ignore_ascii_case" else a[:1]
                 verdicts = []
                 for o in ops:
-                    m = re.search(r"Index::index\((\w+)\.%s, ops::RangeTo::RangeTo\{end: (\w+)\.(\w+)\}\)" % bytes_f, o)
+                    # the head of the buffer up to an offset: `x[..n]` or `x.split_at(n).0`
+                    m = re.search(r"Index::index\((\w+)\.%s, ops::RangeTo::RangeTo\{end: (\w+)\.(\w+)\}\)" % bytes_f, o) or \
+                        re.search(r"slice::split_at\((\w+)\.%s, (\w+)\.(\w+)\)\.0" % bytes_f, o)
+                    oa = K.alpha(o, b)
                     if m:
                         verdicts.append(m.group(3) == bound_f and m.group(1) == m.group(2))
-                    elif re.search(r"Index::index\(other, ops::RangeTo::RangeTo\{end: self\.%s\}\)" % bound_f, o):
-                        verdicts.append(True)         # Rsync == AsRef<[u8]>: same length checked first
+                    elif re.search(r"Index::index\(%%2, ops::RangeTo::RangeTo\{end: self\.%s\}\)" % bound_f, oa) or \
+                            re.search(r"slice::split_at\(%%2, self\.%s\)\.0" % bound_f, oa):
+                        # Rsync == AsRef<[u8]>: self's offset is a boundary of the other byte string only if both have the
+                        # same length, which must have been established on every way here
+                        gs = K.dominating_guards(f, b, c.bb)
+                        same_len = any(re.match(r"^(\w+::)*len\(self\.%s\) == (\w+::)*len\(%%2\)$" % bytes_f, g) or
+                                       re.match(r"^(\w+::)*len\(%%2\) == (\w+::)*len\(self\.%s\)$" % bytes_f, g) for g in gs)
+                        verdicts.append(same_len)
                     elif re.search(r"^(%s)::authority\((self|other)\)$" % short(adt).split("::")[-1], o):
                         verdicts.append(True)         # authority() lies inside [8, bound)
                     elif c.name == "make_ascii_lowercase" and re.search(r"^res⟵String::with_capacity", o):
@@ -244,10 +257,12 @@ def run(ctx):
             ctx.missing("R-SIB", short(adt) + "::hash", "Hash for " + adt)
         else:
             ctx.saw_fn(hb.name)
-            for c in hb.calls():
-                if c.name != "hash" or hb.is_cleanup(c.bb):
+            hbs = [hb] + [f.body(n) for n in f.children(hb.name) if f.body(n) is not None]
+            for c in [c for x in hbs for c in x.calls()]:
+                if c.name != "hash" or c.body.is_cleanup(c.bb):
                     continue
-                a = K.arg_renders(c)[0]
+                with substituting(_closure_context(f, c.body)):
+                    a = K.arg_renders(c)[0]
                 ok = a.startswith("num::to_ascii_lowercase(") and re.search(r"RangeTo\{end: self\.%s\}" % bound_f, a) is not None \
                     or re.match(r"^self\.%s\[self\.%s\]$" % (bytes_f, bound_f), a) is not None \
                     or re.match(r"^Index::index\(self\.%s, ops::RangeFrom::RangeFrom\{start: self\.%s\}\)$" % (bytes_f, bound_f), a) is not None
@@ -313,6 +328,34 @@ def run(ctx):
         ok = mp.holds(rb.name)
         ctx.ob("R-GRD", "Rsync::relative_to:same-module", ok, "relative_to returns Some only for URIs of the same module",
                where=rb.loc, detail=None if ok else K.why(f, mp, rb.name))
+
+
+_ELEMENTWISE = {"for_each", "map", "inspect", "all", "any", "filter", "find", "position", "take_while", "skip_while",
+                "filter_map", "flat_map", "try_for_each", "find_map"}
+
+
+def _closure_context(f, b):
+    """Rendering context for a closure body that some function passes to an element-wise std iterator combinator: the
+    element parameter reads as (an element of) the receiver, captures as the captured values.  {} for anything else."""
+    if "::{closure" not in b.name:
+        return {}
+    parent = f.body(b.name.rsplit("::{closure", 1)[0])
+    if parent is None:
+        return {}
+    for c in parent.calls():
+        if c.trait != "std::iter::Iterator" or c.name not in _ELEMENTWISE or len(c.args) != 2 or parent.is_cleanup(c.bb):
+            continue
+        with substituting(_closure_context(f, parent)):
+            a = K.arg_terms(c)
+            ct = strip(a[1])
+            if ct[0] != "closure" or ct[1] != b.name:
+                continue
+            cb, m = K.closure_env(f, ct, render(a[0]))
+        if cb is not None:
+            if cb.arg_count >= 2 and not cb.local_name(2):
+                m[("param", "_2")] = render(a[0])
+            return m
+    return {}
 
 
 def _lowercase_before_module(f, b, c):
